@@ -45,6 +45,12 @@ pub fn cases(tier: Tier) -> Vec<Case> {
                             atts.push(Some((a, l)));
                         }
                     }
+                    // credential ids whose length is a multiple of a 4 KiB page (chunked readers)
+                    if rp == 1 && counter == 2 && matches!(flags, 0x01 | 0x1d) {
+                        for l in [4095usize, 4096, 4097, 8192, 12288, 61440] {
+                            atts.push(Some((1, l)));
+                        }
+                    }
                     // other legal shapes of the credential public key
                     if rp == 1 && matches!(counter, 1 | 4) {
                         for a in 2..6u8 {
@@ -509,7 +515,7 @@ pub fn run(ctx: &Ctx) -> Result<Run, String> {
     }
     let mut run = Run::from_stats(
         "exploration",
-        "full product RP id {'', ascii, Unicode, upper-case ascii, android facet with upper case, trailing dot, 33 and 64 bytes long} x counter {None,0,1,2^31,2^32-1} x all 16 subsets of {UP,UV,BE,BS} (through set_flags and by assigning the public field) x attested data {absent, AAGUID 0/pattern x id length 0,1,16,64,255,256,1023,65535, and for 16-byte ids the key shapes compressed EC2 (y as sign bit), OKP, EC2 with key id and an unregistered parameter, EC2 with its members in the order y, x, crv} x extensions {none, hmac-secret true, hmac-secret-mc bytes, assertion hmac-secret}; each encoding is parsed by an independent byte-level parser, round-tripped through from_slice and through serde (one CBOR byte string holding to_vec()), every strict prefix decoded (must be rejected) and every position replaced by 16 boundary values (all 256 for the flags byte and for a representative subset of encodings); thorough adds all two-byte corruptions of the two shortest encodings. plus every sequence of up to 3 (4 thorough) setter calls out of 11 (flags, attested data, make/assert extension outputs incl. None and empty) after the constructor: AT/ED set exactly when the section is present, own encoding decodes to an equal value. Every case is a distinct encoding",
+        "full product RP id {'', ascii, Unicode, upper-case ascii, android facet with upper case, trailing dot, 33 and 64 bytes long} x counter {None,0,1,2^31,2^32-1} x all 16 subsets of {UP,UV,BE,BS} (through set_flags and by assigning the public field) x attested data {absent, AAGUID 0/pattern x id length 0,1,16,64,255,256,1023,65535 and 4095,4096,4097,8192,12288,61440, and for 16-byte ids the key shapes compressed EC2 (y as sign bit), OKP, EC2 with key id and an unregistered parameter, EC2 with its members in the order y, x, crv} x extensions {none, hmac-secret true, hmac-secret-mc bytes, assertion hmac-secret}; each encoding is parsed by an independent byte-level parser, round-tripped through from_slice and through serde (one CBOR byte string holding to_vec()), every strict prefix decoded (must be rejected) and every position replaced by 16 boundary values (all 256 for the flags byte and for a representative subset of encodings); thorough adds all two-byte corruptions of the two shortest encodings. plus every sequence of up to 3 (4 thorough) setter calls out of 11 (flags, attested data, make/assert extension outputs incl. None and empty) after the constructor: AT/ED set exactly when the section is present, own encoding decodes to an equal value. Every case is a distinct encoding",
         true,
         stats,
     );
